@@ -635,6 +635,7 @@ package service
 //@   trace[C03,no-socket-without-key] never net.ListenPacket when result != nil && result.Status == "ERR_CIPHER"
 //@   trace[C04,association-only-after-validation] before service.(*packetHandler).validatePacket service.(*natmap).Add
 //@   trace[C04,socket-only-after-validation] before service.(*packetHandler).validatePacket net.ListenPacket
+//@   trace[C18,new-socket-always-handed-to-the-table] each net.ListenPacket satisfies $res1 == nil ==> evcount("service.(*natmap).Add") == 1
 
 //@ func timedCopy
 //@   props C03 C14 C16 C18
@@ -745,6 +746,11 @@ package service
 //@   acquires-level 0
 //@   requires sharedLn != nil && sharedLn.ln != nil && acceptCh != nil && !closed(acceptCh)
 //@   trace[C12,closes-once] atmost 1 close
+//@   trace[C12,one-accept-per-iteration] loop 1 exactly 1 service.(*TCPListener).AcceptStream
+//@   trace[C12,accepted-connection-handed-off-once] loop 1 exactly 1 send
+//@   trace[C12,hands-off-what-it-accepted] loop 1 each send satisfies $recv == acceptCh && $arg0.conn == evres("service.(*TCPListener).AcceptStream", 0) && $arg0.err == evres("service.(*TCPListener).AcceptStream", 1)
+//@   trace[C12,accepts-on-its-own-socket] loop 1 each service.(*TCPListener).AcceptStream satisfies $arg0 == sharedLn
+//@   trace[C12,channel-closed-only-when-socket-closed] never send when evcount("close") > 0
 
 // close function of one stream handle. It runs at most once per handle (the handle clears
 // its onCloseFunc) and only after Acquire counted the handle, hence count > 0 on entry.
@@ -778,6 +784,9 @@ package service
 //@   trace[C12,one-answer-per-datagram] loop 1 atmost 1 send
 //@   trace[C11,C12,request-taken-only-with-a-datagram-in-hand] loop 1 before net.PacketConn.ReadFrom recv
 //@   trace[C12,one-socket-read-per-iteration] loop 1 exactly 1 net.PacketConn.ReadFrom
+//@   trace[C12,datagram-answered-to-the-requester] loop 1 each send satisfies $arg0.addr == evres("net.PacketConn.ReadFrom", 1) && $arg0.err == evres("net.PacketConn.ReadFrom", 2)
+//@   trace[C12,datagram-copied-once] loop 1 atmost 1 copy
+//@   trace[C12,copies-what-was-read] loop 1 each copy satisfies $arg1.$arr == buffer.$arr && len($arg1) == evres("net.PacketConn.ReadFrom", 0)
 //@   trace[C12,reads-its-own-socket] loop 1 each net.PacketConn.ReadFrom satisfies $recv == pc
 
 // close function of one packet handle (same ownership argument as for streams)
